@@ -13,9 +13,19 @@ def build(ctx):
     return ctx.compile('hk-shm', 'c20', ['c20.c'], instr=False)
 
 
+def known_ids():
+    """ids of the C20 entries of /verif/known_findings.json (the harness attributes a failure to one of them only if the id is
+    listed, the input lies in the finding's class, the message is its signature and everything else about that case still holds)"""
+    import vlib
+    return [f['id'] for f in vlib.known_findings() if f.get('property') == 'C20' and f.get('id')]
+
+
 def check(ctx):
     exe = build(ctx)
     args = ['--outdir', '/verif/out', '--workers', '8']
+    ids = known_ids()
+    if ids:
+        args += ['--known', ','.join(ids)]
     if ctx.tier == 'thorough':
         args += ['--thorough', '--deadline', '1000']
     else:
